@@ -144,7 +144,7 @@ class PipelineResult:
 
 
 def run_pipeline(tables, cfg, workdir, name, fmt="pin", row_group=None, sched_desc=None, knobs=None,
-                 glob_seed=None, models_in=None, stop_after=None, dict_strings=False):
+                 glob_seed=None, models_in=None, stop_after=None, dict_strings=False, index_start=0):
     """Execute the pipeline once; never raises for mokapot errors (recorded)."""
     import mokapot
 
@@ -157,7 +157,7 @@ def run_pipeline(tables, cfg, workdir, name, fmt="pin", row_group=None, sched_de
     paths = []
     for i, t in enumerate(tables):
         p = root / f"file{i}{ext}"
-        world.materialise(t, p, fmt, row_group, dict_strings=dict_strings)
+        world.materialise(t, p, fmt, row_group, dict_strings=dict_strings, index_start=index_start)
         paths.append(p)
     res.paths = paths
     ti = tag_index(tables[0])
